@@ -43,8 +43,11 @@ let parse_kind (s:string) : skind =
 let idx_list s = if s = "-" then [] else List.map (fun x -> nat_of_int (int_of_string x)) (split_on '.' s)
 
 let parse_port (s:string) : port =
-  match split_on ',' s with
-  | [path; kind; arr; len; mn; mx; opts; dflt; sel; table; hard; soft] ->
+  (* 12 columns (corpus lines written before ports without default existed) or 14 *)
+  match (match split_on ',' s with
+         | [a; b; c; d; e; f; g; h; i; j; k; l] -> [a; b; c; d; e; f; g; h; i; j; k; l; "0"; "-"]
+         | x -> x) with
+  | [path; kind; arr; len; mn; mx; opts; dflt; sel; table; hard; soft; nodef; init] ->
     { p_path = bytes_of_hex path; p_kind = parse_kind kind; p_array = (arr = "1");
       p_len = nat_of_int (int_of_string len);
       p_min = opt z_of_string mn; p_max = opt z_of_string mx;
@@ -54,7 +57,7 @@ let parse_port (s:string) : port =
       p_sel = opt (fun x -> nat_of_int (int_of_string x)) sel;
       p_table = (if table = "-" then [] else List.map (fun kv ->
           match split_on '=' kv with [k; v] -> (z_of_string k, parse_value v) | _ -> failwith "table") (split_on '+' table));
-      p_hard = idx_list hard; p_soft = idx_list soft }
+      p_hard = idx_list hard; p_soft = idx_list soft; p_nodef = (nodef = "1"); p_init = parse_value init }
   | _ -> failwith "port"
 let parse_app (s:string) : port list = if s = "-" then [] else List.map parse_port (split_on ';' s)
 
@@ -148,6 +151,7 @@ let () = each_line (fun line ->
                 | _, _ -> "NOFUEL"
               end) (split_on '/' g))) (split_on ';' groups) in
       Printf.printf "n=%d %s\n" n (String.concat ";" gs)
+    | "macro" :: _ :: name :: meta :: _ -> Printf.printf "name=%s meta=%s\n" name meta
     | "rej" :: _ :: flat :: _ :: appname :: apro :: absf :: _ ->
       let a = parse_app flat in
       let ap = parse_apro apro in
